@@ -53,6 +53,8 @@ var (
 	// BlockHashAddr: on its first call remembers the height of the previous block; on every call stores
 	// BLOCKHASH(that height) in slot 0
 	BlockHashAddr = world.ContractAddr(0x52)
+	// ChainIDAddr returns CHAINID (what every EIP-712 domain separator reads)
+	ChainIDAddr = world.ContractAddr(0x53)
 	VestKey       = 50 // key index of the account that becomes a vesting account in some templates
 )
 
@@ -106,6 +108,7 @@ func NewFix() *Fix {
 			{Addr: DirtyAddr, Code: dirtyCode(), Balance: 1000},
 			{Addr: QueryAddr, Code: queryCode(bankSel)},
 			{Addr: BlockHashAddr, Code: common.FromHex("600154806010575060014303806001555b4060005500")},
+			{Addr: ChainIDAddr, Code: common.FromHex("4660005260206000f3")},
 		},
 		// exact gas accounting (no floor at half the gas limit): a difference in gas metering between two
 		// nodes shows in the responses
